@@ -371,3 +371,11 @@ Definition split (g : graph) : option result :=
     | Some xs => Some (mkResult a xs (map (chunk_order g a) (a_chunks a)))
     end
   end.
+
+(* executable form of the assumption used by the cross-chunk theorems: every
+   symbol used from / exported from another file is backed by a part dependency *)
+Definition deps_coverb (g : graph) : bool :=
+  forallb (fun f =>
+    forallb (fun s : sym => (fst s =? f)%nat || memn (fst s) (f_deps (getf g f))) (f_uses (getf g f)) &&
+    forallb (fun s : sym => (fst s =? f)%nat || memn (fst s) (f_deps (getf g f))) (f_exports (getf g f)))
+    (seq 0 (nfiles g)).
